@@ -84,6 +84,17 @@ def gen_definition(rng, rich=True):
         if rng.random() < 0.4:
             entries.insert(rng.randint(1, len(entries)), {'c': 'SUB'})
         has_grand = rng.random() < 0.4
+        if rich and not has_grand and rng.random() < 0.35:
+            # a trailing field of MODE bits (width 0 when MODE == 0): with a packet cut to the consumed length the entry
+            # list still has a zero-width entry to decode after the last bit; other MODEs leave 1..7 unconsumed bits
+            tname = f"{cname}_TAIL"
+            ptypes.append({'name': tname + '_T', 'kind': 'bin', 'ref': 'MODE', 'use_cal': False})
+            params.append({'name': tname, 'type': tname + '_T'})
+            if rng.random() < 0.5:
+                containers.append({'name': tname + '_BOX', 'entries': [tname], 'base': None, 'criteria': None, 'abstract': False})
+                entries.append({'c': tname + '_BOX'})
+            else:
+                entries.append(tname)
         containers.append({'name': cname, 'entries': entries, 'base': 'CCSDSPacket', 'criteria': crit,
                            'abstract': has_grand and rng.random() < 0.6})
         if has_grand:
@@ -209,6 +220,19 @@ def _finish(built, r, dfn):
             built[c.base_container_name].inheritors.append(c.name)
     return dfn.XtcePacketDefinition(container_set=list(built.values()), root_container_name=r['root'],
                                     date=r.get('date'), space_system_name=r.get('space_system_name'))
+
+
+def exact_packet(rng, r, defn, **kw):
+    """a packet for recipe r cut to the whole bytes its definition consumes (reference decoder): exactly consumed when the
+    consumed width is a multiple of 8, else 1..7 bits too long; unrecognizable packets are returned with a random length"""
+    from specs.refsem import ref_parse_outcome
+    pkt = gen_packet(rng, r, body_len=90, **kw)
+    try:
+        st, p = ref_parse_outcome(defn, pkt)
+    except Exception:
+        st, p = 'error', None
+    n = max(7, (p.pos + 7) // 8) if st == 'ok' else 6 + rng.randint(1, 30)
+    return pkt[:4] + (n - 7).to_bytes(2, 'big') + pkt[6:n]
 
 
 def gen_packet(rng, r, body_len=None, apid=None, seqflags=3, seqcount=None):
